@@ -53,7 +53,7 @@ PopCls(hs, c) == IF ~HasCls(hs, c) THEN hs
                  ELSE LET i == FirstPos(hs, c) IN
                       IF Len(hs[i].ents) > 1 THEN [hs EXCEPT ![i].ents = Tail(@)] ELSE RemoveAt(hs, i)
 
-NewLine(c, e) == [cls |-> c, nm |-> IF c = "via" THEN "Via" ELSE "Record-Route", val |-> "", ents |-> <<e>>]
+NewLine(c, e) == [cls |-> c, nm |-> IF c = "via" THEN "Via" ELSE "Record-Route", cn |-> IF c = "via" THEN "via" ELSE "record-route", val |-> "", ents |-> <<e>>]
 \* AddVia (message.go:374-391): a new line in front of the first Via line, or at the very top
 PushVia(hs, e) == InsertAt(hs, IF HasCls(hs, "via") THEN FirstPos(hs, "via") ELSE 1, NewLine("via", e))
 \* AddRecordRoute (message.go:483-511)
@@ -76,7 +76,7 @@ StampTop(hs, ip, port) ==
 
 \* Write (message.go:513-556): every Content-Length line is dropped and one computed line is appended
 EmitHdrs(hs, blen) == SelectSeq(hs, LAMBDA h : h.cls # "clen")
-                      \o <<[cls |-> "clen", nm |-> "Content-Length", val |-> blen, ents |-> <<>>]>>
+                      \o <<[cls |-> "clen", nm |-> "Content-Length", cn |-> "content-length", val |-> blen, ents |-> <<>>]>>
 
 ---------------------------------------------------------------------------
 (* Part 2 - declarative vocabulary                                          *)
